@@ -158,6 +158,11 @@ def _worker_entry(args):
         return ("err", "%s\n%s" % (repr(e), traceback.format_exc()))
 
 
+def _pool_init():
+    # workers must die on pool.terminate() (SIGTERM), not run the parent's handler
+    signal.signal(signal.SIGTERM, signal.SIG_DFL)
+
+
 def pmap(fn, tasks, jobs=None, chunksize=1, ordered=False):
     """Run module-level fn over tasks in a fork pool of long-lived workers.
 
@@ -176,7 +181,7 @@ def pmap(fn, tasks, jobs=None, chunksize=1, ordered=False):
     import multiprocessing as mp
 
     ctx = mp.get_context("fork")
-    with ctx.Pool(jobs) as pool:
+    with ctx.Pool(jobs, initializer=_pool_init) as pool:
         it = (pool.imap if ordered else pool.imap_unordered)(_worker_entry, packed, chunksize)
         for st, r in it:
             if st == "err":
@@ -479,6 +484,7 @@ def main(argv=None):
         print("HARNESS-ERROR: no check module for %s (%s)" % (prop, e))
         return 2
     signal.signal(signal.SIGTERM, lambda *_: sys.exit(143))
+    scratch_root()  # before any fork: workers then nest their scratch dirs under ours (removed at exit)
     try:
         if a.replay:
             with open(a.replay) as f:
